@@ -8,6 +8,8 @@
      Range::new(a, b)              range_new          (range-map 0.2.0: panics when a > b)
      Result<usize,usize>::err      bres_err           (the Result of slice::binary_search_by_key is Model.bres)
      Option::and_then              opt_and_then
+     Iterator::map / Option::map   vec_mapM / opt_mapM when the closure can trap (map / option_map when it cannot)
+     cur.lines = .. / cur.inlinees = ..   func_set_lines / func_set_inlinees
      FrameSymbolizer callbacks     fr_set_function / fr_set_source_file / fr_add_inline_frame on Model.sym_out:
                                    the last set_function / set_source_file call and the add_inline_frame calls in call
                                    order — exactly what the harness's recording FrameSymbolizer prints. *)
@@ -28,6 +30,20 @@ Definition range_new (a b : Z) : outcome range := if b <? a then Panic PANIC_RAN
 Definition bres_err (r : bres) : option nat := match r with BOk _ => None | BErr i => Some i end.
 Definition opt_and_then {A B} (f : A -> option B) (o : option A) : option B :=
   match o with Some a => f a | None => None end.
+
+(* Iterator::map with a closure that can trap, Option::map likewise: left to right, the first panic ends it *)
+Fixpoint vec_mapM {A B} (f : A -> outcome B) (l : list A) : outcome (list B) :=
+  match l with
+  | [] => Ret []
+  | a :: t => do b <- f a; do r <- vec_mapM f t; Ret (b :: r)
+  end.
+Definition opt_mapM {A B} (f : A -> outcome B) (o : option A) : outcome (option B) :=
+  match o with Some a => do b <- f a; Ret (Some b) | None => Ret None end.
+(* `cur.lines = ...` / `cur.inlinees = ...` on a `mut cur: Function` *)
+Definition func_set_lines (f : func) (l : list (range * line_rec)) : func :=
+  mk_func (fn_addr f) (fn_size f) (fn_psize f) (fn_name f) l (fn_inls f).
+Definition func_set_inlinees (f : func) (l : list inl_rec) : func :=
+  mk_func (fn_addr f) (fn_size f) (fn_psize f) (fn_name f) (fn_lines f) l.
 
 Definition fr_set_function (o : sym_out) (name base psize : Z) : sym_out :=
   mk_out (Some (name, base, psize)) (o_src o) (o_inl o).
